@@ -26,7 +26,9 @@ def plans(prop, tier):
              prof(6, nops=n + 400, pool=160, maxlen=3, alpha=8, mode="deep", pput=65, prem=12, pget=23, pscan=0, piscan=0, pmem=0, pprobe=0, dumpevery=0, psweep=15),
              prof(4, nops=n, pool=25, maxlen=9, alpha=2, pput=40, prem=40, pget=20, pscan=0, piscan=0, pmem=0, pprobe=0, dumpevery=0, uniq=50),
              # split sweep: see C08; here for the statuses / values of put, get, remove around every split position
-             prof(7, nops=40, pool=20, maxlen=2, alpha=3, pput=45, prem=30, pget=25, pscan=0, piscan=0, pmem=0, pprobe=0, dumpevery=0, splitsweep=1)]
+             prof(7, nops=40, pool=20, maxlen=2, alpha=3, pput=45, prem=30, pget=25, pscan=0, piscan=0, pmem=0, pprobe=0, dumpevery=0, splitsweep=1),
+             # interior split whose new separator differs from the pivot / its neighbours only in length (full root interior over 16 borders)
+             prof(8, nops=40, pool=20, maxlen=2, alpha=3, pput=45, prem=30, pget=25, pscan=0, piscan=0, pmem=0, pprobe=0, dumpevery=0, isplitlen=1)]
         M = ["MC_Tree_struct7.cfg", "MC_Tree_struct9S.cfg"] if q else ["MC_Tree_struct7.cfg", "MC_Tree_struct8L.cfg", "MC_Tree_struct9S.cfg"]
     elif prop == "C03":
         on = ["C03"]
@@ -144,6 +146,11 @@ def main(prop, tier):
         chk.assumptions.append("concurrent part: sequentially consistent scheduler-driven executions, see C01")
         p_conc.run_model_and_steps(chk, prop, tier, pkey="C08c")
         p_conc.run_conc(chk, prop, tier, pkey="C08c")
+    if prop == "C12":
+        # the same rule per call when puts race (a put that loses a race and retries must not advance the version of a border it does not report)
+        from props import p_conc
+        chk.assumptions.append("concurrent part: sequentially consistent scheduler-driven executions; a call's own version advances = the unlocks of its thread between its lock (or locked version copy) and unlock of a border")
+        p_conc.run_conc(chk, prop, tier, pkey="C12c")
     if prop == "C10":
         # second sentence: cursor steps interleaved with writers on trees of any depth
         from props import p_conc
